@@ -1010,9 +1010,14 @@ def functions_named_by(db, f, p):
         nm = m.group(1)
         while nm.count(')') > nm.count('('):
             nm = nm[:nm.rfind(')')]
+        spec = None
+        if '@' in nm:
+            nm, spec = nm.split('@', 1)       # a named specialisation of a function template
         got = db.fns(norm(nm))
         if not got:
             got = [g for g in db.all_instances() if g['nname'] == norm(nm)]
+        if spec:
+            got = [g for g in got if (g.get('plain_inst') or g.get('inst') or '') == spec] or got
         out.extend(got)
     if not out and 'operator cocls::suspend_point' in p:
         for e in f.events():
